@@ -1921,9 +1921,14 @@ def _io_fill_buffer(env, prop, which="fill_buffer"):
         return a
 
     def sub_of(v):
-        if not (isinstance(v, mir.Agg) and v.label == "subslice"):
-            raise mir.Unsupported("read into / copy from something that is not a tracked sub-slice")
-        return v
+        if isinstance(v, mir.Agg) and v.label == "subslice":
+            return v
+        # the whole stack chunk passed as a slice (`&mut chunk` / `&chunk`: an unsize coercion of `[u8; CHUNK]`)
+        if isinstance(v, mir.Ref) and "CHUNK" in senv.consts:
+            a = mir.Agg("subslice")
+            a["start"], a["end"], a["of"] = z3.BitVecVal(0, 64), z3.BitVecVal(senv.consts["CHUNK"][0], 64), "chunk"
+            return a
+        raise mir.Unsupported("read into / copy from something that is not a tracked sub-slice")
 
     def m_read_exact(ex_, st, callee, args, argvals, dty):
         w = world(st)
